@@ -2636,6 +2636,11 @@ pub fn sum_distinct() -> impl Function {
                     .into()
             },
             |(intervals, size)| {
+                // Equal values are summed once: between 1 (0 if the list can be empty) and size terms
+                let size = match (size.min(), size.max()) {
+                    (Some(&min), Some(&max)) => data_type::Integer::from_interval(min.min(1), max),
+                    _ => size,
+                };
                 Ok(data_type::Integer::try_from(multiply().super_image(
                     &DataType::structured_from_data_types([intervals.into(), size.into()]),
                 )?)?)
@@ -2655,6 +2660,11 @@ pub fn sum_distinct() -> impl Function {
                     .into()
             },
             |(intervals, size)| {
+                // Equal values are summed once: between 1 (0 if the list can be empty) and size terms
+                let size = match (size.min(), size.max()) {
+                    (Some(&min), Some(&max)) => data_type::Integer::from_interval(min.min(1), max),
+                    _ => size,
+                };
                 Ok(data_type::Float::try_from(multiply().super_image(
                     &DataType::structured_from_data_types([intervals.into(), size.into()]),
                 )?)?)
